@@ -359,3 +359,99 @@ PROPS["C12"] = dict(
                  "finding F-C12-1 (no leak): Enforce without tenant returns Ok(empty) on the early exits of search / vec search / adaptive search"],
     allowed_axioms=[],
 )
+
+PROPS["C03"] = dict(
+    corr_module="Corr.C03",
+    streams={"proto": dict(runner="C02_proto_run", in_t="(list fsop)", out_t="N", shard=200, imports=["Model.FsProto"])},
+    n_quick=10, n_thorough=100,
+    harness_timeout=3000,
+    rule="every API call of fixed histories (puts, updates, deletes, commits, reopen, vacuum, log growth, automatic checkpoint) is run under strace -y; its operations on the memory / staging file / directory, INCLUDING every fsync/fdatasync, are mapped to the model's fsop alphabet; the Coq recognizers (which require the fsync after the record write, the fsync of the staging file immediately before the rename and the directory fsync after it) classify the trace, compared with the protocol the call must follow; non-trivial = the call is not a no-op; distinct by (history, op index)",
+    level_text="Protocol-level theorems over a durable/volatile disk model (any writes, any power-loss point): a returned put's record is in every power-loss image, a staged commit leaves the old or the new image and, once returned, only the new one; tied to the code by classifying the real syscall trace (with its fsync positions) of every call. Partial: power-loss images are not synthesised and replayed on the real code; batch mode (skip_sync) and in-place paths are outside the theorems.",
+    level_note="Trusted: Coq kernel; the disk model of Model/FsProto.v (completed fsync = durable, un-synced writes may be lost from the end, un-synced rename may be lost) is the definition of the disk; strace -y decoding and the syscall-to-fsop mapping.",
+    trusted_base=["disk model in Model/FsProto.v", "strace -y", "syscall-to-fsop mapping in harness/src/crash.rs"],
+    assumptions=["fsync semantics as modelled", "no torn writes inside one write call at protocol level (byte level: the log record checksum of C05)"],
+    allowed_axioms=[],
+)
+
+PROPS["C04"] = dict(
+    corr_module="Corr.C04",
+    streams={},
+    n_quick=30, n_thorough=100000,
+    harness_timeout=3400,
+    rule="crash images (a child process exits without commit, leaving acknowledged records in the log; one image with a grown log region) are opened; the uninterrupted replay must show every acknowledged op and a second open must change no frame; then the replaying open itself is killed at its K-th mutating syscall (quick: random sample, thorough: every K), a second replay is killed at a random point, and the final open must give the uninterrupted result; non-trivial = the kill hit; distinct by (image, K)",
+    level_text="Frame-table theorems (all reachable states): replay exposes exactly the acknowledged ops, replay is idempotent, crash+replay is a no-op of the reference model; crash-safety DURING replay (an in-place protocol) is explored by nested kill enumeration on the real code.",
+    level_note="Trusted: Coq kernel; Model/Store.v (as C01); strace kill injection; the survivor comparison in harness/src/c04.rs. Partial: no theorem covers a crash inside the in-place replay.",
+    trusted_base=["as C01", "strace -e inject=...:signal=SIGKILL:when=K"],
+    assumptions=["a killed syscall has no effect"],
+    allowed_axioms=[],
+)
+
+PROPS["C25"] = dict(
+    corr_module="Corr.C25",
+    streams={
+        "hist": dict(runner="C25_run", in_t="C25_in", out_t="C25_out", shard=40, imports=["Model.Ticket"]),
+        "verify": dict(runner="C25_verify_run", in_t="C25_verify_in", out_t="(outcome unit)", shard=160, imports=["Model.Ticket"]),
+    },
+    n_quick=200, n_thorough=4000,
+    rule="hist: histories of 1-40 ops on a freshly created real memory (0-2 committed puts first): apply_ticket / bind_memory tickets with sequence numbers drawn around the current one "
+         "(below, equal, +1, +2..6, far above, 0, 1, negative, i64::MIN, i64::MAX-3..i64::MAX, random), capacities None/0/1..4096/50 MiB/2^63/u64::MAX/random, expiry 0/1/86400/u64::MAX/random, "
+         "11 issuers incl. empty, quotes, backslashes, control characters, UTF-8; set_memory_binding_only / bind_memory with 4 memory ids; commit, reopen (Drop commit) and exit-without-commit + reopen anywhere; "
+         "10% of the histories also unbind_memory; 40% are 'dash' scenarios that bind memory 69601cef-... and present the one authentic ticket available under the embedded key "
+         "(the dashboard vector of src/signature.rs: seq 9) below / at / above the current sequence number, replayed, and tampered one field at a time (signature bit, length 63/65/0, issuer, seq, expiry, capacity, memory id, "
+         "right payload signed by another key, random and zero signatures); other histories present signed tickets signed by a harness key / random bytes / wrong lengths; "
+         "compared after every op: Ok / error class (TicketSequence, TicketSignatureInvalid, MemoryAlreadyBound) / panic, stats().seq_no, get_capacity(), current_ticket() (issuer, seq, expiry, capacity, verified), bound memory id; "
+         "verify: signature::verify_ticket_signature with per-case Ed25519 keys generated from the seeded generator: 55% authentic signatures over the signer's JSON (issuers with every escape class, "
+         "seq incl. negative / i64::MIN / i64::MAX, capacity null / 0 / u64::MAX / powers of ten), 45% tampered one field or signature; the model accepts only if ITS canonical payload equals the signed message byte for byte; "
+         "non-trivial = history with at least one accepted ticket, one rejected ticket and one reopen (hist) / accepted or tampered (verify); distinct by BLAKE3 of the op list / input",
+    level_text="Unbounded theorems over a line-by-line model of apply_ticket / apply_signed_ticket / bind_memory / set_memory_binding_only / unbind_memory / commit / reopen and of the canonical payload "
+               "(any Ed25519 oracle, any key, any state, any history): accepted sequence numbers are strictly increasing along every unbind-free history incl. reopen and exit-without-commit; a ticket is accepted only if its number exceeds "
+               "every number accepted before; a rejected ticket (error or panic) leaves memory state, file state and dirty flag unchanged; a signed ticket is accepted iff bound, ids equal, 64-byte signature verifying over the canonical payload "
+               "with the embedded key, number above the current one; the canonical payload is injective in (memory id, issuer, seq, expiry, capacity), hence with a signature valid for one message only every tampered variant is rejected. "
+               "Model tied to the code by differential histories on real memories and by verify_ticket_signature runs with real Ed25519 keys.",
+    level_note="Proof + correspondence; no violation of the property on the unchanged tree. Observations outside the property's quantifier (proved about the model, seen on the implementation, not findings): "
+               "unbind_memory resets the sequence number to 1 (a lower number is accepted afterwards); once i64::MAX is accepted every further ticket is refused by an arithmetic-overflow panic in the error path (state unchanged). "
+               "Trusted: Coq kernel + vm_compute; hand-written model (tied by correspondence); Ed25519 as an oracle; no I/O errors; harness. Valid signed tickets under the embedded key are limited to the one dashboard vector in the source "
+               "(the private key is not available): a hook taking the verifying key would widen the accept path of apply_signed_ticket.",
+    trusted_base=["Ed25519 verify_strict is a Section variable `verify` in the theorems (they hold for every function); in the correspondence run it is the finite table of (message, signature) pairs that ed25519-dalek accepts under the key in use, "
+                  "every other pair rejected (i.e. a signature is taken to be valid for the signed message only)",
+                  "MEMVID_TICKET_PUBKEY is a Section variable; the harness checks that the dashboard vector verifies under the real constant",
+                  "free-tier capacity 50 MiB and the free-tier ticket (issuer free-tier, seq 1) are constants of the model, compared with the implementation on every case",
+                  "i64 overflow modelled as in the debug profile (panic); the release profile wraps and returns the TicketSequence error"],
+    assumptions=["histories in the strictly-increasing theorems contain no unbind_memory (outside the property's quantifier; behaviour stated as an observation theorem)",
+                 "no I/O errors: an accepted ticket's TOC rewrite, header write and fsync succeed; Drop's commit succeeds",
+                 "memory ids are 16 bytes (Uuid) for payload injectivity",
+                 "tamper theorem: the signature at hand verifies for at most one message under the embedded key (hypothesis on the oracle, shown satisfiable)"],
+    allowed_axioms=[],
+)
+
+PROPS["C30"] = dict(
+    corr_module="Corr.C30",
+    streams={
+        "henc": dict(runner="C30_henc_run", in_t="hdr_t", out_t="(outcome (bytes * N * bool))", shard=200),
+        "hdec": dict(runner="C30_hdec_run", in_t="C30_hdec_in", out_t="C30_hdec_out", shard=100),
+        "tiapp": dict(runner="C30_tiapp_run", in_t="C30_tiapp_in", out_t="C30_tiapp_out", shard=100),
+        "tiread": dict(runner="C30_tiread_run", in_t="(bytes * nat * N)", out_t="(outcome (list (Z * N)))", shard=120),
+        "tocenc": dict(runner="C30_tocenc_run", in_t="value", out_t="(outcome bytes)", shard=15, imports=["Model.Bincode"]),
+        "tocdec": dict(runner="C30_tocdec_run", in_t="bytes", out_t="(outcome value)", shard=20, imports=["Model.Bincode"]),
+    },
+    n_quick=90, n_thorough=2400,
+    rule="header: Header values with edge-biased u64 fields, valid or with one of magic / version / wal_offset<4096 / wal_size=0 / all wrong (encode result, first 80 bytes, zero tail); "
+         "4096-byte images = valid encodings with one bit of magic / version / spec bytes flipped, wal_offset or wal_size forced bad, a random field bit flipped, junk in the legacy-lock bytes 80..140, junk at 140..160, junk padding, 80 random bytes, files cut short or extended (decode, read through a Cursor, file after the scrub); "
+         "time index: 0-90 entries with many ties, negative and i64::MIN/MAX timestamps, ids 0/u64::MAX, appended at the end / inside / beyond the end of a 0-39 byte store, then read back; "
+         "written tracks with damaged magic, count +-1..3, length +-1..20, length < 12, swapped neighbours, a flipped entry bit, truncated file, overflowing count, count >= 2^59 with the matching length, shifted or out-of-file offset; "
+         "TOC: generated Toc values through the public struct fields (every Option / Vec / BTreeMap / enum variant of every reachable type, 0-13 frames with metadata, non-ASCII and empty strings, NaN / -0.0 floats; memory_binding = None) encoded by Toc::encode; "
+         "images: intact, 1-3 trailing bytes, truncated, last byte removed, pre-replay (V2) and pre-memories (V1) layouts with and without a trailing byte, Option tag 2..255, enum tag out of range, vector length over its bound, frames count +-1, bool byte >= 2, invalid UTF-8, one random bit; "
+         "compared: encode bytes, Ok value / error class (trailing vs decode error) of decode; implementation oracle: decode(encode t) = t, re-encoding equality, must-reject damage rejected, a damaged image that decodes to a different value fails verify_checksum, stamped TOC verifies, altered checksum / content does not; "
+         "non-trivial = always (header), >= 2 entries (append), every read case, TOC with frames / decode that answered Ok or had to reject; distinct by BLAKE3 of the input",
+    level_text="Unbounded theorems over line-by-line models. Header: decode(encode h) = h for every header the Rust type can hold that passes encode's checks; encode rejects exactly the others; decode accepts exactly the 4096-byte buffers whose magic, version, spec bytes, wal_offset >= 4096, wal_size <> 0 check out, never panics, every accepted image re-encodes to itself on bytes 0..80 (so no other value is returned), bytes 80..4096 are ignored (stated); write/read on a file round-trips and the legacy scrub never changes the result. Footer: C31's model (round trip, length/magic rejection). Time index: read(append es) = sorted es for every store, position, entry list below 2^59 entries and any hash; the sort is characterised as THE sorted permutation; an Ok answer implies magic, count, length = 12+16n, order, and byte-exact image; image of an unsorted list -> 'entries not sorted'; totality is REFUTED in one class (count*16 >= 2^63 with matching length panics in Vec::with_capacity; known finding F-C30-1) and proved outside it, the class is exact. TOC: one generic theorem dec s (enc s v ++ rest) = Ok (v, rest) for every schema and well-typed value of the bincode model (fixed-int LE, Option, Vec with serde bounds, String with UTF-8 check, BTreeMap insertion, fixed arrays, tuples, unit enums), instantiated on the full Toc schema (every field of every reachable type; memory_binding as None only): decode(encode t) = t from the current-layout branch, any trailing bytes -> error, the V2/V1 fallback only after a decode error, verify_checksum(stamp t) holds and verify_checksum accepts only the digest of one of the three zero-checksum images. Models tied to the code by differential runs and regenerated constants.",
+    level_note="Partial in one respect: Toc.memory_binding is covered as None only (Uuid / chrono::DateTime codecs are not modelled). Known finding F-C30-1 (time-index reader panics on count >= 2^59 with matching length). Trusted: Coq kernel + vm_compute; hand-written models of src/io/header.rs, src/io/time_index.rs, src/toc.rs and of bincode 2 serde mode + the serde schema of types::Toc transcribed by hand (tied by byte-exact comparison of Toc::encode on generated values and of Toc::decode on damaged / legacy images); BLAKE3 abstracted as an arbitrary function (incremental hashing = hash of the concatenation); str::from_utf8 modelled as the Unicode well-formedness table; memory allocation assumed to succeed below isize::MAX bytes; the 512 MiB bincode limit not modelled (inputs are shorter); harness and translator.",
+    trusted_base=["BLAKE3 is a Section variable H in the theorems; in the correspondence run it is the table of the real digest of the written track",
+                  "bincode's byte limit (512 MiB) is not modelled: it only turns longer inputs / larger declared lengths into errors, which the model also answers with errors",
+                  "Vec::with_capacity / vec![0; n] allocations below isize::MAX bytes are assumed to succeed (deserialize_vec_bounded pre-allocates up to LIMIT elements: up to 10^7 Frames for a crafted frames length; read_track pre-allocates count*16 bytes); the harness keeps crafted lengths out of the 2^24..2^59 range",
+                  "legacy V1/V2 images are assembled in the harness from the field encodings produced by bincode with the same configuration (LegacyTocV1/V2 are private)"],
+    assumptions=["header_wf / entry_wf / wt: values the Rust types can hold (array lengths, integer widths, valid UTF-8, BTreeMap keys strictly ascending); vector lengths within their deserialize bounds (a Toc with more than 10^7 frames encodes but is refused by decode -- stated in wt)",
+                 "time index round trip: fewer than 2^59 entries (16 bytes each below isize::MAX)",
+                 "read_track does not verify the manifest checksum (the caller may); the header has no checksum of its own and decode ignores bytes 80..4096",
+                 "non-canonical images that decode to the SAME value are accepted by Toc::decode (CanonicalEncoding's u32 masked with 0xFF, BTreeMap entries out of order or duplicated); they are not 'a different value' and verify_checksum re-encodes canonically"],
+    allowed_axioms=[],
+)
